@@ -328,74 +328,94 @@ def rule_R3(chk, repo, rid='C05.R3'):
     chk.floor(rid, len(uses), 5)
 
 
-def rule_R4(chk, repo):
-    """OpChain.padded: length algebra."""
-    rid = 'C05.R4'
+def rule_R4(chk, repo, rid='C05.R4'):
+    """OpChain.padded, by partial evaluation with a symbolic chain (sa/peval.py): the method is run for a chain of n
+    operators starting at site s; the lists of the returned chain are sequences of segments (count, element)."""
     chk.rule(rid, 'OpChain.padded: operator list = istart identities + oids + npad identities with '
                   'npad = length - len(oids) - istart; quantum-number list padded by the same counts with 0; '
-                  'coefficient passed through unchanged; new start site 0.')
+                  'coefficient passed through unchanged; new start site 0 (decided on the partially evaluated method, for '
+                  'every path through it).')
+    from .. import peval as pe
+    from ..optable import FoldError
+    from ..affine import Affine
     fi = repo.func('opchain.OpChain.padded')
-    ret = [n for n in ast.walk(fi.node) if isinstance(n, ast.Return)]
-    if len(ret) != 1 or not isinstance(ret[0].value, ast.Call) or norm(ret[0].value.func) != 'OpChain':
-        raise AnalysisError('OpChain.padded: single `return OpChain(...)` not found')
-    call = ret[0].value
-    if len(call.args) != 4:
-        raise AnalysisError('OpChain.padded: expected OpChain(oids, qnums, coeff, istart)')
-    from ..affine import Affine, to_affine
-    env = {}
-    for s in fi.node.body:
-        if isinstance(s, ast.Assign) and len(s.targets) == 1 and isinstance(s.targets[0], ast.Name):
-            try:
-                env[s.targets[0].id] = to_affine(s.value, env, attr_syms={'self.length': 'len_oids', 'self.istart': 'istart'})
-            except ValueError:
-                pass
+    n_, s_ = Affine.sym('n'), Affine.sym('s')
+    one, zero = Affine.const(1), Affine.const(0)
 
-    def seq_len(e, elem_holder):
-        """length of a list expression as an affine term; records element expressions"""
-        if isinstance(e, ast.BinOp) and isinstance(e.op, ast.Add):
-            return seq_len(e.left, elem_holder) + seq_len(e.right, elem_holder)
-        if isinstance(e, ast.BinOp) and isinstance(e.op, ast.Mult):
-            for cnt, lst in ((e.left, e.right), (e.right, e.left)):
-                if isinstance(lst, ast.List) and len(lst.elts) == 1:
-                    elem_holder.append(norm(lst.elts[0]))
-                    return to_affine(cnt, env, attr_syms={'self.length': 'len_oids', 'self.istart': 'istart'})
-        if isinstance(e, ast.Attribute) and norm(e) == 'self.oids':
-            elem_holder.append('<oids>')
-            return Affine.sym('len_oids')
-        if isinstance(e, ast.Attribute) and norm(e) == 'self.qnums':
-            elem_holder.append('<qnums>')
-            return Affine.sym('len_oids') + Affine.const(1)
-        raise ValueError(norm(e))
+    def make_args():
+        me = pe.Obj('OpChain', oids=pe.SymSeq([pe.Gen('_o', zero, n_ - one, [pe.Opaque('self.oids[_o]')])]),
+                    qnums=pe.SymSeq([pe.Gen('_q', zero, n_, [pe.Opaque('self.qnums[_q]')])]),
+                    coeff=pe.Sym(Affine.sym('self.coeff')), istart=pe.Sym(s_))
+        return [me, pe.Sym(Affine.sym(fi.params[1])), pe.Sym(Affine.sym(fi.params[2]))]
     try:
-        e0, e1 = [], []
-        l0 = seq_len(call.args[0], e0)
-        l1 = seq_len(call.args[1], e1)
-    except ValueError as ex:
-        raise AnalysisError(f'OpChain.padded: list expression not recognised: {ex}')
-    want = Affine.sym('length')
-    chk.ob(rid, where(repo, fi, call), 'len(padded oids) == length', l0 == want, f'len = {l0}',
-           key=f'{rid}|{fi.qual}|len-oids')
-    chk.ob(rid, where(repo, fi, call), 'len(padded qnums) == length + 1', l1 == want + Affine.const(1), f'len = {l1}',
-           key=f'{rid}|{fi.qual}|len-qnums')
-    chk.ob(rid, where(repo, fi, call), 'operators: identities, chain operators, identities (in this order)',
-           e0 == ['oid_identity', '<oids>', 'oid_identity'], f'{e0}', key=f'{rid}|{fi.qual}|oids-order')
-    chk.ob(rid, where(repo, fi, call), 'quantum numbers: zeros, chain quantum numbers, zeros',
-           e1 == ['0', '<qnums>', '0'], f'{e1}', key=f'{rid}|{fi.qual}|qnums-order')
-    chk.ob(rid, where(repo, fi, call), 'coefficient passed through unchanged', norm(call.args[2]) == 'self.coeff',
-           norm(call.args[2]), key=f'{rid}|{fi.qual}|coeff')
-    chk.ob(rid, where(repo, fi, call), 'padded chain starts at site 0', norm(call.args[3]) == '0',
-           norm(call.args[3]), key=f'{rid}|{fi.qual}|istart')
-    # first count is istart for both lists
-    def first_count(e):
-        while isinstance(e, ast.BinOp) and isinstance(e.op, ast.Add):
-            e = e.left
-        if isinstance(e, ast.BinOp) and isinstance(e.op, ast.Mult):
-            return norm(e.left if not isinstance(e.left, ast.List) else e.right)
-        return None
-    chk.ob(rid, where(repo, fi, call), 'left padding count is the start site for both lists',
-           first_count(call.args[0]) == 'self.istart' and first_count(call.args[1]) == 'self.istart',
-           f'{first_count(call.args[0])}, {first_count(call.args[1])}', key=f'{rid}|{fi.qual}|left-count')
-    chk.floor(rid, 7, 7)
+        runs = pe.evaluate_call(repo, fi, make_args)
+    except FoldError as ex:
+        raise AnalysisError(f'OpChain.padded: outside the vocabulary of the partial evaluator: {ex}')
+    Ls = Affine.sym(fi.params[1])
+    ident = fi.params[2]
+    many = len(runs) > 1
+    nob = 0
+    for run, res in runs:
+        lab = '' if not many else ' [' + ', '.join(f'{"" if o else "not "}({k})' for k, o, _ in run.path) + ']'
+        w = where(repo, fi, fi.node)
+        if isinstance(res, pe.Obj) and res.kind == 'raise':
+            continue
+        if not (isinstance(res, pe.Obj) and res.kind == 'OpChain'):
+            chk.ob(rid, w, f'padded{lab}: returns a new OpChain', False, f'{res!r}', key=f'{rid}|{fi.qual}|returns{lab}')
+            nob += 1
+            continue
+        # equalities of the path condition: used to drop segments that are empty on this path
+        eqs = [d for k, o, f_ in run.path if f_ is not None for d, op in [f_] if (op == '==' and o) or (op == '!=' and not o)]
+
+        def reduce(a):
+            # eliminate one symbol per equality (triangular substitution), then normalise a
+            sub = []
+            rest = list(eqs)
+            for d in rest:
+                for sy, val in sub:
+                    d = d.subst(sy, val)
+                for sy in sorted(d.syms()):
+                    if d.coeff(sy) in (1, -1):
+                        val = (Affine.sym(sy).scale(d.coeff(sy)) - d).scale(1 / d.coeff(sy))
+                        sub = [(s2, v2.subst(sy, val)) for s2, v2 in sub] + [(sy, val)]
+                        break
+            for sy, val in sub:
+                a = a.subst(sy, val)
+            return a
+
+        def segs(v):
+            v = pe.symview(v)
+            out = []
+            for sg in (v.segs if isinstance(v, pe.SymSeq) else list(v)):
+                if isinstance(sg, pe.Gen):
+                    cnt = reduce(sg.hi - sg.lo + one)
+                    for e in sg.elts:
+                        kind = 'own' if isinstance(e, pe.Opaque) and e.text.startswith('self.') else \
+                            (f'{e.a}' if isinstance(e, pe.Sym) else repr(e))
+                        out.append((cnt, kind))
+                else:
+                    out.append((one, repr(sg)))
+            return [(c, k) for c, k in out if not (c.is_const() and c.c == 0)]
+
+        def expect(fill, own_count):
+            return [(c, k) for c, k in ((reduce(s_), fill), (reduce(own_count), 'own'), (reduce(Ls - n_ - s_), fill))
+                    if not (c.is_const() and c.c == 0)]
+        try:
+            so, sq = segs(res.f.get('oids')), segs(res.f.get('qnums'))
+        except (AttributeError, TypeError):
+            raise AnalysisError('OpChain.padded: lists of the returned chain not understood')
+        show = lambda sg: [(str(c), k) for c, k in sg]
+        chk.ob(rid, w, f'padded{lab}: operators are s identities, the n chain operators, length - n - s identities', so == expect(ident, n_),
+               f'{show(so)}', key=f'{rid}|{fi.qual}|oids{lab}')
+        chk.ob(rid, w, f'padded{lab}: quantum numbers are s zeros, the n + 1 chain quantum numbers, length - n - s zeros',
+               sq == expect('0', n_ + one), f'{show(sq)}', key=f'{rid}|{fi.qual}|qnums{lab}')
+        c_ = res.f.get('coeff')
+        chk.ob(rid, w, f'padded{lab}: coefficient passed through unchanged', isinstance(c_, pe.Sym) and c_.a == Affine.sym('self.coeff'),
+               f'{c_!r}', key=f'{rid}|{fi.qual}|coeff{lab}')
+        chk.ob(rid, w, f'padded{lab}: padded chain starts at site 0', res.f.get('istart') == 0, f'{res.f.get("istart")!r}',
+               key=f'{rid}|{fi.qual}|istart{lab}')
+        nob += 4
+    chk.floor(rid, nob, 4)
 
 
 def run(chk, repo, tier):
@@ -471,14 +491,16 @@ def rule_R5(chk, repo, rid='C05.R5'):
         chk.ob(rid, where(repo, fi, st[0]), 'from_opgraph: the block is the coefficient-weighted sum of the edge operators', b is not None,
                norm(v)[:80], key=f'{rid}|weighted-sum')
         n += 1
+    # the two places where an edge sums coefficients of repeated operator ids: the path-partitioned exactly-once rule (list
+    # idiom) or the symbolic two-state rule (dict idiom) of C16.R6, evaluated under this rule id
+    from .C16 import rule_R6 as edge_sum_rule
     for q in ('opgraph.OpGraphEdge.__init__', 'opgraph.OpGraphEdge.add'):
+        n += edge_sum_rule(chk, repo, rid, q, declare=False)
         fi = repo.func(q)
-        from ..match import find
-        hits = find('__L.append((__i, __c + __d))', fi.node)
         srt = [s for s in ast.walk(fi.node) if isinstance(s, ast.Assign) and norm(s.targets[0]) == 'self.opics' and
-               norm(s.value) == 'sorted(self.opics)']
-        chk.ob(rid, where(repo, fi, fi.node), f'{fi.name.strip("_")} of OpGraphEdge: a repeated operator id keeps one entry with '
-               f'the summed coefficient; the list stays sorted', len(hits) == 1 and len(srt) == 1, '', key=f'{rid}|{q}')
+               isinstance(s.value, ast.Call) and norm(s.value.func) == 'sorted']
+        chk.ob(rid, where(repo, fi, fi.node), f'{fi.name.strip("_")} of OpGraphEdge: the list of (id, coefficient) pairs is stored sorted',
+               len(srt) == 1, '', key=f'{rid}|{q}|sorted')
         n += 1
     ci = repo.cls('OpHalfchain')
     init_fields = sorted({t.attr for s in ast.walk(ci.methods['__init__'].node) if isinstance(s, ast.Assign)
